@@ -7,7 +7,7 @@ CONSTANTS
   BFKinds = {"bool", "char", "schar", "uchar", "short", "ushort", "int", "uint", "long", "ulong", "llong", "ullong"}
   EnumOps = {"eu", "es", "eul", "el", "efs", "efuc"}
   EnumBFs = {"eu", "es", "eul", "efs"}
-  Devs = {"CondSameTypeNoConversion", "CompositeIsFirst", "UacKeepsWideEnum", "SizeofSeesBitfield", "ConvertKeepsCompatible"}
+  Devs = {"CondSameTypeNoConversion", "CompositeIsFirst", "UacKeepsWideEnum", "SizeofSeesBitfield", "ConvertKeepsCompatible", "ArrayQualOnArrayType", "DerefDecayedArrayDropsQual"}
   Forms = {"bin", "cond", "un", "lit", "flt", "chr"}
   Emit = TRUE
 INVARIANTS Inv_Refines Inv_DevsExplain Inv_NoFatal Inv_UacSymmetric Inv_UacHoldsBoth Inv_PromoteIdempotent Inv_Emit
